@@ -240,6 +240,19 @@ def default_guard(repo: Repo, rep):
                     rep.ok("R-DEFAULT-GUARD", m, nd.ast, f"{c.name}: is_default only for a field that has a default")
                 else:
                     rep.violation("R-DEFAULT-GUARD", m, nd.ast, f"{c.name}.arguments marks an argument as default without testing that the field has a default", construct=f"{c.name}:stmt")
+                # polarity: the mark is set on the edge where the value EQUALS the default
+                eq = False
+                neq = False
+                for cn, lab in dominating_edges(cfg, nd):
+                    e_ = cn.ast
+                    if cn.kind == "cond" and isinstance(e_, ast.Compare) and len(e_.ops) == 1 and isinstance(e_.ops[0], (ast.Eq, ast.NotEq)) and "default" in norm(e_) and not any(k in norm(e_) for k in ("MISSING", "NOTHING", "Undefined")):
+                        same = (lab == "T") == isinstance(e_.ops[0], ast.Eq)
+                        eq = eq or same
+                        neq = neq or not same
+                if neq and not eq:
+                    rep.violation("R-DEFAULT-GUARD", m, nd.ast, f"{c.name}.arguments marks an argument as default on the edge where its value DIFFERS from the default: every non-default argument is dropped from the generated call, the created snapshot does not read back as the value", construct=f"{c.name}:polarity")
+                elif eq:
+                    rep.ok("R-DEFAULT-GUARD", m, nd.ast, f"{c.name}: is_default on the `value == default` edge")
         # (2) Argument(..., is_default=<expr>)
         for x in body_nodes(m.node):
             if isinstance(x, ast.Call) and norm(x.func) == "Argument":
@@ -249,7 +262,10 @@ def default_guard(repo: Repo, rep):
                         t = norm(k.value)
                         conj = isinstance(k.value, ast.BoolOp) and isinstance(k.value.op, ast.And)
                         has = conj and any((" in " in norm(v) and "default" in norm(v)) or any(s in norm(v) for s in ("MISSING", "NOTHING", "Undefined")) for v in k.value.values)
-                        if has:
+                        ne_ = [v for v in ast.walk(k.value) if isinstance(v, ast.Compare) and len(v.ops) == 1 and isinstance(v.ops[0], ast.NotEq) and "default" in norm(v)]
+                        if has and ne_:
+                            rep.violation("R-DEFAULT-GUARD", m, x, f"{c.name}.arguments computes is_default with `{short(ne_[0], 50)}`: an argument is marked default when it differs from the default", construct=f"{c.name}:polarity")
+                        elif has:
                             rep.ok("R-DEFAULT-GUARD", m, x, f"{c.name}: is_default = <has default> and <equal>")
                         else:
                             rep.violation(
